@@ -24,8 +24,8 @@ var c10limits = []int{-1, 0, 1, 2, 15, 16, 17, 100, 4095, 4096, 4097, 65536}
 
 func init() {
 	core.Register(c10{base{id: "C10", level: "exploration", quickB: 24, thoroughB: 96,
-		rule:        "grid: limit L in {-1,0 (=16 MiB default),1,2,15,16,17,100,4095,4096,4097,65536} (one child process per limit so the allocation profile is attributable) x body size in {0,1,L-1,L,L+1,L+2,2L-1,2L,2L+1,3L+7,10L+1} x message type in {Q,P,B,D,E,C,H,S,d,c,f,p,unknown} x position in {first after startup, between simple queries, inside a batch, while skipping, during COPY, in place of the password, as the startup packet, inside an upgraded TLS connection}; declared-only lengths {2^31-1, 2^31, 2^32-1} with little data then EOF; declared lengths 0-3 (below the minimum). Bodies <= L must be processed normally (callback sees exactly the content); bodies > L must be skipped in full and answered by exactly one ERROR/54000 ErrorResponse, after which Sync + a unique probe Query must be answered normally (detects mis-framing); startup/auth: connection ends without session. Allocation sanitizer (MemProfileRate=1): no object allocated by library code may exceed 4L+64KiB. Exhaustive product in thorough, seeded subset in quick. Thorough adds 48 batches with a limit drawn per (seed, batch) from {12..64, 64..1024, 1024..20000, 2^k-1..2^k+1 for k in 13..17, 2^20} in which the message under test is delivered cut into PRNG-chosen segments (cuts inside the header, at L, at L+5). Non-trivial = size within 2 of a multiple of L or declared-only/sub-minimum; distinct = (L, size class, type, position).",
-		need:        []string{"at_limit_processed", "over_limit_skipped", "probe_after_oversize_ok", "startup_or_auth_oversize", "sub_minimum_lengths", "declared_only_huge", "alloc_profile_checks", "copy_mode_oversize"},
+		rule:        "grid: limit L in {-1,0 (=16 MiB default),1,2,15,16,17,100,4095,4096,4097,65536} (one child process per limit so the allocation profile is attributable) x body size in {0,1,L-1,L,L+1,L+2,2L-1,2L,2L+1,3L+7,10L+1} x message type in {Q,P,B,D,E,C,H,S,d,c,f,p,unknown} x position in {first after startup, between simple queries, inside a batch, while skipping, during COPY, in place of the password, as the startup packet, inside an upgraded TLS connection}; declared-only lengths {2^31-1, 2^31, 2^32-1} with little data then EOF; declared lengths 0-3 (below the minimum). Bodies <= L must be processed normally (callback sees exactly the content); bodies > L must be skipped in full and answered by exactly one ERROR/54000 ErrorResponse, after which a unique probe Query - preceded by a Sync in half of the cases, sent directly (or after a Describe of the statement prepared before) in the other half - must be answered normally (detects mis-framing and lost follow-up messages); startup/auth: connection ends without session. Allocation sanitizer (MemProfileRate=1): no object allocated by library code may exceed 4L+64KiB. Exhaustive product in thorough, seeded subset in quick. Thorough adds 48 batches with a limit drawn per (seed, batch) from {12..64, 64..1024, 1024..20000, 2^k-1..2^k+1 for k in 13..17, 2^20} in which the message under test is delivered cut into PRNG-chosen segments (cuts inside the header, at L, at L+5). Non-trivial = size within 2 of a multiple of L or declared-only/sub-minimum; distinct = (L, size class, type, position).",
+		need:        []string{"next_message_without_sync", "at_limit_processed", "over_limit_skipped", "probe_after_oversize_ok", "startup_or_auth_oversize", "sub_minimum_lengths", "declared_only_huge", "alloc_profile_checks", "copy_mode_oversize"},
 		assumptions: append([]string{"after an oversized extended-protocol message the reply may be E or E Z (C06's open reading); for declared lengths below 4 only 'no callback from that frame, no crash, no large allocation' is judged"}, commonAssumptions...)}})
 }
 
@@ -588,8 +588,23 @@ func (ch c10) runCase(c *core.Ctx, envPlain, envAuth *hs.Env, k c10case, idx int
 			return
 		}
 	}
-	if _, ok := expect("Sync after the message", pg.Sync(), "Z"); !ok {
-		return
+	// "the message after it is processed normally": in half of the oversized cases the next message
+	// follows at once, with no Sync in between (not while the server is already discarding until Sync)
+	direct := over && k.Pos != "skipping" && idx%2 == 0
+	if direct && k.Pos == "batch" && idx%4 == 0 {
+		// the statement prepared before the oversized message is still there and can be described
+		if _, ok := expect("Describe right after the oversized message", pg.Describe('S', "s"), "tT"); !ok {
+			return
+		}
+		c.Count("next_message_without_sync", 1)
+		direct = false
+	}
+	if !direct {
+		if _, ok := expect("Sync after the message", pg.Sync(), "Z"); !ok {
+			return
+		}
+	} else {
+		c.Count("next_message_without_sync", 1)
 	}
 	if _, ok := expect("probe query", q("probe-after"), "TDCZ"); !ok {
 		return
